@@ -1221,6 +1221,8 @@ fn run_c16(args: &Args) -> Report {
 
 #[derive(Clone, Debug)]
 struct TPkg {
+    /// unique within a tree (`name`, or `name@pathdep` for the path dependency's private copy)
+    key: String,
     name: String,
     dir: PathBuf,
     local: bool,
@@ -1291,14 +1293,31 @@ fn run_c17(args: &Args) -> Report {
                 reg_deps[cr.below(i)].push(rn.clone());
             }
         }
-        pkgs.push(TPkg { name: "app".into(), dir: root.clone(), local: true, deps: root_deps, path_deps: if has_path { vec!["pathdep".into()] } else { vec![] }, modules: vec![] });
+        pkgs.push(TPkg { key: "app".into(), name: "app".into(), dir: root.clone(), local: true, deps: root_deps, path_deps: if has_path { vec!["pathdep".into()] } else { vec![] }, modules: vec![] });
         for (i, rn) in reg_names.iter().enumerate() {
             let mut deps = reg_deps[i].clone();
             deps.dedup();
-            pkgs.push(TPkg { name: rn.clone(), dir: root.join("build/packages").join(rn), local: false, deps, path_deps: vec![], modules: vec![] });
+            pkgs.push(TPkg { key: rn.clone(), name: rn.clone(), dir: root.join("build/packages").join(rn), local: false, deps, path_deps: vec![], modules: vec![] });
         }
+        // The path dependency may have been built on its own: it then has a private
+        // build/packages with a package of the SAME NAME as one of the root's registry
+        // packages (another copy, other modules).
+        // A path dependency has registry dependencies of its own (the usual monorepo: app and
+        // lib both use the same library; everything is fetched into the ROOT's build/packages).
+        let private_copy = has_path && cr.chance(1, 3);
         if has_path {
-            pkgs.push(TPkg { name: "pathdep".into(), dir: base.join("ws/pathdep"), local: true, deps: vec![], path_deps: vec![], modules: vec![] });
+            let mut deps: Vec<String> = reg_names.iter().filter(|_| cr.chance(1, 2)).cloned().collect();
+            if private_copy && !deps.contains(&reg_names[0]) {
+                deps.push(reg_names[0].clone());
+            }
+            if !deps.is_empty() {
+                rep.see("layouts", "path-dependency-with-registry-dependencies");
+            }
+            pkgs.push(TPkg { key: "pathdep".into(), name: "pathdep".into(), dir: base.join("ws/pathdep"), local: true, deps, path_deps: vec![], modules: vec![] });
+            if private_copy {
+                rep.see("layouts", "path-dependency-with-private-copy-of-a-registry-package");
+                pkgs.push(TPkg { key: format!("{}@pathdep", reg_names[0]), name: reg_names[0].clone(), dir: base.join("ws/pathdep/build/packages").join(&reg_names[0]), local: false, deps: vec![], path_deps: vec![], modules: vec![] });
+            }
         }
         // modules: 1-3 per package from a small pool (equal names across packages happen), root gets a test/ module too
         for (pi, p) in pkgs.iter_mut().enumerate() {
@@ -1311,16 +1330,31 @@ fn run_c17(args: &Args) -> Report {
             if pi == 0 {
                 p.modules.push(("app_test".into(), "test"));
             }
-            p.modules.push((format!("{}_entry", p.name), "src"));
+            p.modules.push((format!("{}_entry", p.key.replace('@', "_at_")), "src"));
         }
         // the model: which packages does P see
-        let sees = |p: &TPkg| -> Vec<String> {
-            let mut v = vec![p.name.clone()];
-            v.extend(p.deps.iter().cloned());
-            v.extend(p.path_deps.iter().cloned());
+        // keys of the packages P sees: itself and its direct dependencies. A dependency is
+        // named, not located: for the path dependency (which may be analysed as a dependency
+        // of the root or as a root of its own) either copy of a twice-present package is
+        // accepted; packages under the root only ever see the root's copies.
+        let keys_by_name: Vec<(String, String)> = pkgs.iter().map(|q| (q.name.clone(), q.key.clone())).collect();
+        // `private`: resolve twice-present packages to the path dependency's private copy
+        // where there is one (only meaningful for importers under the path dependency).
+        let sees_with = |p: &TPkg, private: bool| -> Vec<String> {
+            let mut v = vec![p.key.clone()];
+            for d in p.deps.iter().chain(p.path_deps.iter()) {
+                let copies: Vec<&String> = keys_by_name.iter().filter(|(n, _)| n == d).map(|(_, k)| k).collect();
+                let has_private = copies.iter().any(|k| k.ends_with("@pathdep"));
+                for k in copies {
+                    let is_private = k.ends_with("@pathdep");
+                    if (private && has_private && is_private) || (!(private && has_private) && !is_private) {
+                        v.push(k.clone());
+                    }
+                }
+            }
             v
         };
-        let all_modules: Vec<(String, String)> = pkgs.iter().flat_map(|p| p.modules.iter().map(move |(m, _)| (m.clone(), p.name.clone()))).collect();
+        let all_modules: Vec<(String, String)> = pkgs.iter().flat_map(|p| p.modules.iter().map(move |(m, _)| (m.clone(), p.key.clone()))).collect();
         // write the tree; the entry module of each package imports a sample of module names
         let mut file_of: BTreeMap<(String, String), PathBuf> = BTreeMap::new(); // (pkg, module) -> path
         let mut uses_of: BTreeMap<String, (PathBuf, String, Vec<(String, u32, u32)>)> = BTreeMap::new(); // pkg -> entry file, text, uses
@@ -1337,7 +1371,7 @@ fn run_c17(args: &Args) -> Report {
             for (m, dirname) in &p.modules {
                 let path = p.dir.join(dirname).join(format!("{m}.gleam"));
                 std::fs::create_dir_all(path.parent().unwrap()).unwrap();
-                let is_entry = *m == format!("{}_entry", p.name);
+                let is_entry = *m == format!("{}_entry", p.key.replace('@', "_at_"));
                 let imports: Vec<(String, String)> = if is_entry {
                     let mut cands = all_modules.clone();
                     cr.shuffle(&mut cands);
@@ -1348,9 +1382,9 @@ fn run_c17(args: &Args) -> Report {
                 };
                 let (text, uses) = module_text(m, &imports);
                 std::fs::write(&path, &text).unwrap();
-                file_of.insert((p.name.clone(), m.clone()), path.clone());
+                file_of.insert((p.key.clone(), m.clone()), path.clone());
                 if is_entry {
-                    uses_of.insert(p.name.clone(), (path, text, uses));
+                    uses_of.insert(p.key.clone(), (path, text, uses));
                 }
             }
         }
@@ -1358,7 +1392,7 @@ fn run_c17(args: &Args) -> Report {
         let free = base.join("ws/loose/free.gleam");
         std::fs::write(&free, "pub fn free_fn() { 1 }\n\npub fn caller() { free_fn() }\n").unwrap();
 
-        let replay = json!({"kind":"project-tree","case_seed":case_seed.to_string(),"packages":pkgs.iter().map(|p| json!({"name":p.name,"dir":p.dir.display().to_string(),"local":p.local,"deps":p.deps,"path_deps":p.path_deps,"modules":p.modules.iter().map(|(m,d)| format!("{d}/{m}")).collect::<Vec<_>>()})).collect::<Vec<_>>()});
+        let replay = json!({"kind":"project-tree","case_seed":case_seed.to_string(),"packages":pkgs.iter().map(|p| json!({"key":p.key,"name":p.name,"dir":p.dir.display().to_string(),"local":p.local,"deps":p.deps,"path_deps":p.path_deps,"modules":p.modules.iter().map(|(m,d)| format!("{d}/{m}")).collect::<Vec<_>>()})).collect::<Vec<_>>()});
         rep.evaluations += 1;
         let mut s = match Server::spawn(&bin, &[], None) { Ok(s) => s, Err(_) => { rep.inconclusive += 1; continue; } };
         if s.initialize(Some(&file_uri(&root.display().to_string())), Duration::from_secs(20)).is_none() { rep.inconclusive += 1; continue; }
@@ -1368,7 +1402,13 @@ fn run_c17(args: &Args) -> Report {
         rep.see("opening_orders", order_name);
         let mut to_open: Vec<(PathBuf, String)> = Vec::new();
         for p in &pkgs {
-            if let Some((path, text, _)) = uses_of.get(&p.name) {
+            // The private copy is only ever a possible target: whether anything in the session
+            // depends on it hinges on which project was discovered first, so documents inside
+            // it are neither opened nor judged as importers.
+            if p.key.ends_with("@pathdep") {
+                continue;
+            }
+            if let Some((path, text, _)) = uses_of.get(&p.key) {
                 to_open.push((path.clone(), text.clone()));
             }
         }
@@ -1386,25 +1426,35 @@ fn run_c17(args: &Args) -> Report {
         // queries
         let mut died = false;
         for p in &pkgs {
-            let Some((path, _text, uses)) = uses_of.get(&p.name) else { continue };
-            let visible = sees(p);
+            if p.key.ends_with("@pathdep") {
+                continue;
+            }
+            let Some((path, _text, uses)) = uses_of.get(&p.key) else { continue };
+            let under_pathdep = p.key == "pathdep" || p.key.ends_with("@pathdep");
+            let visible = sees_with(p, false);
+            let visible_private = if under_pathdep { Some(sees_with(p, true)) } else { None };
             for (m, line, col) in uses {
                 let uri = file_uri(&path.display().to_string());
                 let id = s.request("textDocument/definition", json!({"textDocument":{"uri":uri},"position":{"line":line,"character":col + 1}}));
                 let Some(resp) = s.wait_response(id, Duration::from_secs(20)) else { died = true; break; };
-                let cands: Vec<String> = pkgs.iter().filter(|q| visible.contains(&q.name)).filter_map(|q| file_of.get(&(q.name.clone(), m.clone()))).map(|f| vh::lspclient::normalise_uri(&file_uri(&f.display().to_string()))).collect();
+                let cands: Vec<String> = pkgs.iter().filter(|q| visible.contains(&q.key)).filter_map(|q| file_of.get(&(q.key.clone(), m.clone()))).map(|f| vh::lspclient::normalise_uri(&file_uri(&f.display().to_string()))).collect();
                 let got: Vec<String> = match resp.get("result") {
                     Some(Value::Array(a)) => a.iter().filter_map(|l| l["uri"].as_str()).map(vh::lspclient::normalise_uri).collect(),
                     Some(Value::Object(o)) => o.get("uri").and_then(|u| u.as_str()).map(|u| vec![vh::lspclient::normalise_uri(u)]).unwrap_or_default(),
                     _ => vec![],
                 };
+                // the alternative reading for importers under the path dependency
+                let cands_private: Option<Vec<String>> = visible_private.as_ref().map(|vis| pkgs.iter().filter(|q| vis.contains(&q.key)).filter_map(|q| file_of.get(&(q.key.clone(), m.clone()))).map(|f| vh::lspclient::normalise_uri(&file_uri(&f.display().to_string()))).collect());
                 let exists_somewhere = all_modules.iter().any(|(mm, _)| mm == m);
                 let class = if !cands.is_empty() { if cands.len() > 1 { "ambiguous-direct" } else { "direct" } } else if exists_somewhere { "transitive-or-unrelated-only" } else { "nonexistent" };
                 rep.see("import_cells", format!("{}:{}:{}", if p.local { if p.name == "app" { "from-root" } else { "from-path-dep" } } else { "from-registry-dep" }, class, order_name));
                 rep.count("definition_queries", 1);
                 let mut rp = replay.clone();
                 rp["query"] = json!({"from_package": p.name, "module": m, "line": line, "col": col, "opening_order": order_name});
-                if cands.is_empty() {
+                let accepted_by_private_reading = cands_private.as_ref().map(|c| if c.is_empty() { got.is_empty() } else { !got.is_empty() && got.iter().all(|g| c.contains(g)) }).unwrap_or(false);
+                if accepted_by_private_reading && cands_private.as_ref() != Some(&cands) {
+                    rep.count("answers_consistent_with_the_private_copy_reading", 1);
+                } else if cands.is_empty() {
                     if !got.is_empty() {
                         rep.violate(
                             format!("resolves-to-package-not-depended-on:{}:{}", if p.local { "local-importer" } else { "registry-importer" }, class),
@@ -1426,7 +1476,7 @@ fn run_c17(args: &Args) -> Report {
                     );
                 } else {
                     // prepareRename: editable iff the target's package is local
-                    let target_pkg = pkgs.iter().find(|q| file_of.get(&(q.name.clone(), m.clone())).map(|f| vh::lspclient::normalise_uri(&file_uri(&f.display().to_string()))) == Some(got[0].clone()));
+                    let target_pkg = pkgs.iter().find(|q| file_of.get(&(q.key.clone(), m.clone())).map(|f| vh::lspclient::normalise_uri(&file_uri(&f.display().to_string()))) == Some(got[0].clone()));
                     if let Some(tp) = target_pkg {
                         let id = s.request("textDocument/prepareRename", json!({"textDocument":{"uri":uri},"position":{"line":line,"character":col + 1}}));
                         if let Some(pr) = s.wait_response(id, Duration::from_secs(20)) {
